@@ -240,4 +240,28 @@ func init() {
 		Old:    "func (q *ReceiveType) Polarity() Polarity {\n\treturn NEGATIVE",
 		New:    "func (q *ReceiveType) Polarity() Polarity {\n\treturn POSITIVE",
 		Expect: "ReceiveType"})
+	addFixture(Fixture{Name: "equality-by-decorated-print", Rule: "R-DIAG-STRINGS", File: "types/types.go",
+		Old:    "\treturn innerEqualType(type1, type2, make(map[string]bool), labelledTypesEnv)\n}",
+		New:    "\tif type1.StringWithModality() == type2.StringWithModality() {\n\t\treturn true\n\t}\n\treturn innerEqualType(type1, type2, make(map[string]bool), labelledTypesEnv)\n}",
+		Expect: "types.EqualType | StringWithModality-result"})
+	addFixture(Fixture{Name: "receive-binds-slots-crosswise", Rule: "R-PAIRING", File: "process/transition.go",
+		Old:    "\t\t\tnew_body.Substitute(f.payload_c, message.Channel1)\n\t\t\tnew_body.Substitute(f.continuation_c, message.Channel2)",
+		New:    "\t\t\tnew_body.Substitute(f.payload_c, message.Channel2)\n\t\t\tnew_body.Substitute(f.continuation_c, message.Channel1)",
+		Expect: "SND.Channel1:SendForm.payload_c->ReceiveForm.continuation_c"})
+	addFixture(Fixture{Name: "forward-swaps-pair", Rule: "R-RELAY", File: "process/transition.go",
+		Old:    "process.Body = NewSend(f.to_c, message.Channel1, message.Channel2)",
+		New:    "process.Body = NewSend(f.to_c, message.Channel2, message.Channel1)",
+		Expect: "relay-SND-as-SendForm"})
+	addFixture(Fixture{Name: "forward-relays-wrong-kind", Rule: "R-RELAY", File: "process/transition.go",
+		Old:    "\t\t\tprocess.Body = NewCast(f.to_c, message.Channel1)\n\t\t\t// The following",
+		New:    "\t\t\tprocess.Body = NewSelect(f.to_c, message.Label, message.Channel1)\n\t\t\t// The following",
+		Expect: "relay-CST-as-SelectForm"})
+	addFixture(Fixture{Name: "freshness-before-consume", Rule: "R-FRESH-BINDER", File: "process/typechecker.go",
+		Old:    "\tfoundType, err := consumeName(p.from_c, gammaNameTypesCtx)\n",
+		New:    "\tif nameTypeExists(gammaNameTypesCtx, p.channel_one.Ident) || nameTypeExists(gammaNameTypesCtx, p.channel_two.Ident) {\n\t\treturn TypeErrorf(\"not fresh\")\n\t}\n\tfoundType, err := consumeName(p.from_c, gammaNameTypesCtx)\n",
+		Expect: "ctx-insert:p.channel_one.Ident"})
+	addFixture(Fixture{Name: "independence-skips-names", Rule: "R-INDEPENDENCE", File: "process/typechecker.go",
+		Old:    "\tfor _, antecedentName := range antecedents {\n\t\terr := declationOfIndependenceOne(antecedentName, succedentType)",
+		New:    "\tfor i, antecedentName := range antecedents {\n\t\tif i > 0 && antecedentName.Type.Modality() == antecedents[i-1].Type.Modality() {\n\t\t\tcontinue\n\t\t}\n\t\terr := declationOfIndependenceOne(antecedentName, succedentType)",
+		Expect: "checks-every-name"})
 }
